@@ -78,8 +78,21 @@ def handler(verb, ai, cwd_i, data):
         pre["data"] = ([b"xy"], None)
     hb.SpyPathIO.reset()
     arg = ALIASES[ai]
+    lookups = []
+    orig_lookup = user.get_permissions
+
+    def spy_lookup(path):
+        lookups.append(str(path))
+        return orig_lookup(path)
+
+    user.get_permissions = spy_lookup
     res = st.dispatcher_session(server, pre, [verb.upper() + ((" " + arg) if arg else ""), "PWD"], listeners=LS)
     head, per = st.per_command_replies(res)
+    # the path used for the permission lookup is the normalised absolute form of the location addressed
+    want_lookup = M.resolve(cwd, arg)
+    if any(p != want_lookup for p in lookups):
+        hb.KEY = "permission-lookup-not-normalised"
+        return False
     base = pathlib.PurePosixPath("/srv")
     for p in hb.SpyPathIO.paths:
         if not pathlib.PurePosixPath(p).is_relative_to(base) or ".." in pathlib.PurePosixPath(p).parts:
